@@ -337,7 +337,16 @@ func (e *Engine) textOf(st *State, s SliceV) ([]Piece, bool) {
 	if t, ok := st.text[s.Base.String()]; ok && isZero(s.Off) {
 		return t, true
 	}
-	return []Piece{{K: "raw", Base: s.Base, Off: s.Off, Len: s.Len}}, false
+	// package-level byte slices initialised from a literal hold their initial value: functions under contract
+	// never store to globals (a store to a non-ghost global is a tool error) and never write pre-existing bytes (frame)
+	if t, ok := gtext[s.Base.String()]; ok && isZero(s.Off) && len(t) == 1 && t[0].K == "lit" && s.Len.IsConst() && int(s.Len.Uint()) == len(t[0].S) {
+		return t, true
+	}
+	arr := s.Arr
+	if arr == nil {
+		arr = st.arrOf(s.Base)
+	}
+	return []Piece{{K: "raw", Base: s.Base, Off: s.Off, Len: s.Len, Arr: arr}}, false
 }
 
 func asTerm(v Val) *Term {
@@ -946,9 +955,7 @@ func (e *Engine) index(st *State, fr *Frame, i *ssa.Index) Val {
 	idx := asTerm(e.get(st, fr, i.Index))
 	switch s := x.(type) {
 	case SliceV: // string indexing
-		if idx.W < 64 {
-			idx = ZeroExt(idx, 64)
-		}
+		idx = idx64(idx, i.Index.Type())
 		g := ULt(idx, s.Len)
 		e.oblige(st, "safe:index", g, "string index")
 		return st.readByte(s, idx)
@@ -1029,10 +1036,10 @@ func (e *Engine) slice(st *State, fr *Frame, i *ssa.Slice) Val {
 	}
 	lo, hi := BVu(0, 64), s.Len
 	if i.Low != nil {
-		lo = asTerm(e.get(st, fr, i.Low))
+		lo = idx64(asTerm(e.get(st, fr, i.Low)), i.Low.Type())
 	}
 	if i.High != nil {
-		hi = asTerm(e.get(st, fr, i.High))
+		hi = idx64(asTerm(e.get(st, fr, i.High)), i.High.Type())
 	}
 	limit := s.Cap
 	if s.Str {
@@ -1050,9 +1057,20 @@ func (e *Engine) slice(st *State, fr *Frame, i *ssa.Slice) Val {
 	return n
 }
 
+// idx64 widens an index / length operand to 64 bits according to its Go type.
+func idx64(t *Term, ty types.Type) *Term {
+	if t.W >= 64 {
+		return t
+	}
+	if isSigned(ty) {
+		return SignExt(t, 64)
+	}
+	return ZeroExt(t, 64)
+}
+
 func (e *Engine) makeSlice(st *State, fr *Frame, i *ssa.MakeSlice) Val {
-	l := asTerm(e.get(st, fr, i.Len))
-	c := asTerm(e.get(st, fr, i.Cap))
+	l := idx64(asTerm(e.get(st, fr, i.Len)), i.Len.Type())
+	c := idx64(asTerm(e.get(st, fr, i.Cap)), i.Cap.Type())
 	el := i.Type().Underlying().(*types.Slice).Elem()
 	e.oblige(st, "safe:makeslice", And(SLe(BVu(0, 64), l), SLe(l, c)), "makeslice len")
 	base := st.allocRef()
